@@ -13,8 +13,9 @@ from __future__ import annotations
 import itertools
 
 U = "U"  # the unbound state
+CLOSURE_SITE = 99  # site id of the read inside the nested function `inner`
 
-SIMPLE = ("assign", "use", "call", "pass", "break", "continue", "return", "raise")
+SIMPLE = ("assign", "use", "call", "calli", "pass", "break", "continue", "return", "raise")
 
 
 # ----------------------------------------------------------------- rendering
@@ -33,6 +34,8 @@ def render_block(stmts, indent, out):
             out.append(f"{pad}site(v, {s[1]})")
         elif t == "call":
             out.append(f"{pad}call()")
+        elif t == "calli":
+            out.append(f"{pad}inner()")
         elif t == "pass":
             out.append(f"{pad}pass")
         elif t in ("break", "continue", "return"):
@@ -80,8 +83,15 @@ def render_block(stmts, indent, out):
             raise ValueError(s)
 
 
+def has_closure(stmts):
+    return any(s[0] == "calli" for s in walk(stmts))
+
+
 def render_function(name, stmts):
     out = [f"def {name}():"]
+    if has_closure(stmts):
+        # a nested function reading v; ("calli",) statements call it
+        out += ["    def inner():", f"        site(v, {CLOSURE_SITE})"]
     render_block(stmts, 1, out)
     return out
 
@@ -203,6 +213,12 @@ class Analysis:
         elif t == "call":
             r.normal = set(S)
             r.exc = set(S)
+        elif t == "calli":
+            # the nested function reads v at call time
+            self.uses.setdefault(CLOSURE_SITE, set()).update(S)
+            r.normal = set(S) if self.liberal else set(S) - {U}
+            if U in S:
+                r.nexc = {U}
         elif t == "pass":
             r.normal = set(S)
         elif t == "break":
@@ -303,6 +319,10 @@ class Analysis:
 def analyse(stmts, liberal, want_defs=False):
     a = Analysis(liberal)
     a.block(stmts, {U}, set() if liberal else None)
+    if liberal and CLOSURE_SITE in a.uses:
+        # a closure variable is looked up flow-insensitively: any definition of the enclosing
+        # function (or none yet) may be visible when the nested function runs
+        a.uses[CLOSURE_SITE] |= {s[1] for s in walk(stmts) if s[0] == "assign"} | {U}
     if want_defs:
         return a.uses, a.reached_defs
     return a.uses
@@ -356,7 +376,7 @@ def execute(fn, vocab, script, site_lines=None):
 
 # ----------------------------------------------------------------- compact encoding / reduction
 
-_ENC = {"assign": "v=", "use": "use", "call": "call", "return": "ret", "raise": "raise", "break": "brk",
+_ENC = {"assign": "v=", "use": "use", "call": "call", "calli": "inner()", "return": "ret", "raise": "raise", "break": "brk",
         "continue": "cont", "pass": "pass"}
 
 
@@ -509,6 +529,8 @@ def signature(stmts):
                 toks.add("LJ")
             elif t == "call":
                 toks.add("CALL")
+            elif t == "calli":
+                toks.add("CLOSURE")
             elif t == "if":
                 toks.add("IF")
                 go(s[1])
